@@ -224,8 +224,8 @@ Proof.
   intros Hb. unfold bw_read_from.
   set (w1 := if bw_avail w =? 0 then bw_flush w else w).
   destruct (w_n w1 =? 0).
-  - destruct (Hb (zeros (bbs (len (w_out w1))))) as [Hnp Hle].
-    destruct (a_read e (zeros (bbs (len (w_out w1))))) as [b|c|c] eqn:Hr; cbn [bind]; try reflexivity; try discriminate Hnp.
+  - destruct (Hb (Padding.zeros (bbs (len (w_out w1))))) as [Hnp Hle].
+    destruct (a_read e (Padding.zeros (bbs (len (w_out w1))))) as [b|c|c] eqn:Hr; cbn [bind]; try reflexivity; try discriminate Hnp.
     specialize (Hle b eq_refl). rewrite len_zeros' in Hle.
     destruct (N.ltb_spec (bbs (len (w_out w1))) (len b)); [lia|reflexivity].
   - destruct (Hb (drop (w_n w1) (w_arr w1))) as [Hnp Hle].
@@ -265,15 +265,15 @@ Proof.
 Qed.
 
 (* ---- what the importer produces is never a QUIC transport-parameter extension ---- *)
-Lemma u16_list_write_kind code mk norm b e k :
-  (forall l, ext_kind (mk l) = k) -> u16_list_write code mk norm b = Ok e -> ext_kind e = k.
+Lemma u16_list_write_nq code mk norm b e :
+  (forall l, no_quic (mk l) = true) -> u16_list_write code mk norm b = Ok e -> no_quic e = true.
 Proof.
   unfold u16_list_write. intros Hk H.
   destruct (read_u16lp b) as [[v r]|]; [|discriminate]. destruct (empty v); [discriminate|].
   destruct (read_u16s v); inversion H. apply Hk.
 Qed.
-Lemma protos_write_kind mk b e k :
-  (forall l, ext_kind (mk l) = k) -> protos_write mk b = Ok e -> ext_kind e = k.
+Lemma protos_write_nq mk b e :
+  (forall l, no_quic (mk l) = true) -> protos_write mk b = Ok e -> no_quic e = true.
 Proof.
   unfold protos_write. intros Hk H.
   destruct (read_u16lp b) as [[v r]|]; [|discriminate]. destruct (empty v); [discriminate|].
@@ -295,8 +295,8 @@ Proof.
   | |- (if ?c then _ else _) = Ok _ -> _ => destruct c
   end; intros H;
   first
-    [ apply (u16_list_write_kind _ _ _ _ _ _ (fun _ => eq_refl)) in H; unfold no_quic; rewrite H; reflexivity
-    | apply (protos_write_kind _ _ _ _ (fun _ => eq_refl)) in H; unfold no_quic; rewrite H; reflexivity
+    [ exact (u16_list_write_nq _ _ _ _ _ (fun _ => eq_refl) H)
+    | exact (protos_write_nq _ _ _ (fun _ => eq_refl) H)
     | discriminate H
     | inversion H; reflexivity
     | unfold fake_psk_write in H; inv_ok H; inversion H; reflexivity
